@@ -46,6 +46,8 @@ impl DodecahedronProjection {
 
     /// Get a reference to the thread local dodecahedron projection instance
     pub fn get_thread_local() -> &'static mut DodecahedronProjection {
+        #[cfg(feature = "verif")]
+        crate::verif::yield_point(crate::verif::site::TL_GET);
         THREAD_DODECA.with(|ptr| unsafe { &mut **ptr })
     }
 
@@ -57,6 +59,8 @@ impl DodecahedronProjection {
         }
         let origin = &origins[origin_id as usize];
 
+        #[cfg(feature = "verif")]
+        crate::verif::yield_point(crate::verif::site::FWD_ENTRY);
         // Transform back origin space
         let unprojected = to_cartesian(spherical);
         let out = transform_quat(unprojected, origin.inverse_quat);
@@ -74,9 +78,13 @@ impl DodecahedronProjection {
         let face_triangle_index = self.get_face_triangle_index(rotated_polar)?;
         let reflect = self.should_reflect(rotated_polar);
         let face_triangle = self.get_face_triangle(face_triangle_index, reflect, false)?;
+        #[cfg(feature = "verif")]
+        crate::verif::yield_point(crate::verif::site::FWD_MID);
         let spherical_triangle =
             self.get_spherical_triangle(face_triangle_index, origin_id, reflect)?;
 
+        #[cfg(feature = "verif")]
+        crate::verif::yield_point(crate::verif::site::FWD_PRE_POLY);
         Ok(self
             .polyhedral
             .forward(unprojected, spherical_triangle, face_triangle))
@@ -84,13 +92,19 @@ impl DodecahedronProjection {
 
     /// Unprojects face coordinates to spherical coordinates using dodecahedron projection
     pub fn inverse(&mut self, face: Face, origin_id: OriginId) -> Result<Spherical, String> {
+        #[cfg(feature = "verif")]
+        crate::verif::yield_point(crate::verif::site::INV_ENTRY);
         let polar = to_polar(face);
         let face_triangle_index = self.get_face_triangle_index(polar)?;
 
         let reflect = self.should_reflect(polar);
         let face_triangle = self.get_face_triangle(face_triangle_index, reflect, false)?;
+        #[cfg(feature = "verif")]
+        crate::verif::yield_point(crate::verif::site::INV_MID);
         let spherical_triangle =
             self.get_spherical_triangle(face_triangle_index, origin_id, reflect)?;
+        #[cfg(feature = "verif")]
+        crate::verif::yield_point(crate::verif::site::INV_PRE_POLY);
         let unprojected = self
             .polyhedral
             .inverse(face, face_triangle, spherical_triangle);
@@ -145,6 +159,8 @@ impl DodecahedronProjection {
             self.get_base_face_triangle(face_triangle_index)?
         };
 
+        #[cfg(feature = "verif")]
+        crate::verif::yield_point(crate::verif::site::FACE_TRI_MISS);
         self.face_triangles[index] = Some(face_triangle);
         Ok(face_triangle)
     }
@@ -225,6 +241,8 @@ impl DodecahedronProjection {
 
         let spherical_triangle =
             self.compute_spherical_triangle(face_triangle_index, origin_id, reflected)?;
+        #[cfg(feature = "verif")]
+        crate::verif::yield_point(crate::verif::site::SPH_TRI_MISS);
         self.spherical_triangles[index] = Some(spherical_triangle);
         Ok(spherical_triangle)
     }
@@ -252,6 +270,8 @@ impl DodecahedronProjection {
             );
             let rotated = to_cartesian(self.gnomonic.inverse(rotated_polar));
             let transformed = transform_quat(rotated, origin.quat);
+            #[cfg(feature = "verif")]
+            crate::verif::yield_point(crate::verif::site::SPH_TRI_VERTEX);
             let vertex = self.crs.get_vertex(transformed)?;
             spherical_vertices.push(vertex);
         }
@@ -278,6 +298,31 @@ impl DodecahedronProjection {
 impl Default for DodecahedronProjection {
     fn default() -> Self {
         Self::new().expect("Failed to create DodecahedronProjection")
+    }
+}
+
+#[cfg(feature = "verif")]
+impl DodecahedronProjection {
+    /// Read-only view of which memo slots of this instance are filled
+    pub fn verif_memo_view(&self) -> crate::verif::MemoView {
+        let mut view = crate::verif::MemoView::default();
+        for (i, slot) in self.face_triangles.iter().enumerate() {
+            if slot.is_some() && i < 32 {
+                view.face |= 1u32 << i;
+            }
+        }
+        for (i, slot) in self.spherical_triangles.iter().enumerate() {
+            if slot.is_some() && i < 256 {
+                view.spherical[i / 64] |= 1u64 << (i % 64);
+            }
+        }
+        view.crs_invocations = self.crs.verif_invocations();
+        view
+    }
+
+    /// Read-only view of the calling thread's memo (creates the thread's instance if needed)
+    pub fn verif_thread_memo_view() -> crate::verif::MemoView {
+        Self::get_thread_local().verif_memo_view()
     }
 }
 
